@@ -462,6 +462,14 @@ def m_next(interp, args, kwargs):
     from .interp import GenObj, PyRaise
     if isinstance(it, SIter):
         return it.next(interp, args[1:] if len(args) > 1 else None)
+    if isinstance(it, Opaque):
+        # an iterator known through its interface: `__next__` (may raise StopIteration by its own contract)
+        try:
+            return interp.reg.call_opaque(interp, it, '__next__', [], {})
+        except PyRaise as e:
+            if isinstance(e.exc, StopIteration) and len(args) > 1:
+                return args[1]
+            raise
     if isinstance(it, GenObj):
         try:
             return it.send(None)
